@@ -548,7 +548,14 @@ pub mod ssse3 {
     pub unsafe fn of1024(cv: &mut X8) {
         of1024_impl(cv)
     }
-    pub use super::aes::{init1024, init512};
+    #[target_feature(enable = "sse2", enable = "ssse3")]
+    pub unsafe fn init512(cv: X4) -> X4 {
+        init512_impl(cv)
+    }
+    #[target_feature(enable = "sse2", enable = "ssse3")]
+    pub unsafe fn init1024(cv: X8) -> X8 {
+        init1024_impl(cv)
+    }
 }
 #[cfg(target_feature = "aes")]
 pub use self::aes as ssse3;
@@ -585,8 +592,38 @@ pub mod sse2 {
 #[cfg(target_feature = "ssse3")]
 pub use self::ssse3 as sse2;
 
+/// Without `std` the implementation is selected at compile time: `sse2` names the best module the
+/// target features allow (see the aliases above), so calling into it is sound.
 #[cfg(all(not(feature = "std"), target_feature = "sse2"))]
-pub use self::sse2::*;
+mod static_dispatch {
+    use super::*;
+    #[inline]
+    pub fn tf512(cv: &mut X4, data: &GenericArray<u8, U64>) {
+        unsafe { sse2::tf512(cv, data.as_ptr()) }
+    }
+    #[inline]
+    pub fn of512(cv: &mut X4) {
+        unsafe { sse2::of512(cv) }
+    }
+    #[inline]
+    pub fn init512(cv: X4) -> X4 {
+        unsafe { sse2::init512(cv) }
+    }
+    #[inline]
+    pub fn tf1024(cv: &mut X8, data: &GenericArray<u8, U128>) {
+        unsafe { sse2::tf1024(cv, data.as_ptr()) }
+    }
+    #[inline]
+    pub fn of1024(cv: &mut X8) {
+        unsafe { sse2::of1024(cv) }
+    }
+    #[inline]
+    pub fn init1024(cv: X8) -> X8 {
+        unsafe { sse2::init1024(cv) }
+    }
+}
+#[cfg(all(not(feature = "std"), target_feature = "sse2"))]
+pub use self::static_dispatch::*;
 
 #[cfg(feature = "std")]
 mod autodetect {
